@@ -609,6 +609,9 @@ def run(eng, run):
     from rules import c16
     from sa.report import RuleAlias as _RA17
     run.attempt(c16.check_single_and_atomic, eng, _RA17(run, "C17.root"))
+    from rules import c14 as _c14t
+    from sa.analyses.closing import CloserRegistry as _CR17
+    run.attempt(_c14t.check_close_path, eng, _RA17(run, "C17.disc"), _CR17(eng), eng.db.fn("lowlevel.api_async.transports.tls:AsyncTLSStreamTransport.aclose"))  # a TLS peer that never answers close_notify: the failing client's connection is still closed
     run.end_of_rules()
 
 
